@@ -290,6 +290,11 @@ def check_cases(run, cases, src, exe, stats):
                 dis.append("case %s: needed is not contained in fetched: %r" % (case["id"], sorted(needed - fetched)[:4]))
                 continue
             needed = fetched
+            asked = res.get("imageinfo_titles", [])
+            if len(asked) != len(set(asked)):
+                dis.append("case %s: request log: imageinfo asked more than once for %r (the model asks once per image: `scheduled`)"
+                           % (case["id"], sorted({t for t in asked if asked.count(t) > 1})[:3]))
+                continue
             got, odd = archive_items(ab, case, res)
             if got != needed or odd:
                 dis.append("case %s (opts %s): archive vs model: only in archive %r, only in model %r, odd %r"
@@ -324,7 +329,7 @@ def check(run):
     except Exception as e:      # model does not build: the monitor still runs
         run.obligation("ocaml-driver-builds", False, str(e)[-300:])
         exe = None
-    n = 150 if run.tier == "quick" else 5000
+    n = 600 if run.tier == "quick" else 5000
     corpus = os.path.join(core.VERIF, "corpus", "C11")
     cases = []
     if os.path.isdir(corpus):
